@@ -1603,6 +1603,10 @@ ArrO = z3.ArraySort(I_, Obj)
 BTEXT = z3.Function("bytes_text", ArrO, I_, I_, Obj, S_)    # b"".join(items[lo:hi]).decode(encoding)
 DEC_ITEM = z3.Function("decode_item", Obj, Obj, S_)         # item.decode(encoding)
 STATEFUL_CODECS = ("utf-16", "utf-32", "utf-8-sig")
+# the codec law is assumed only for codecs whose IncrementalEncoder is a correct incremental encoder:
+LAWFUL = z3.Function("lawful_incremental_encoder", Obj, z3.BoolSort())
+# stdlib codecs for which the law is known to be FALSE (C10.bounded.dump_codec_sweep finds them by itself):
+UNLAWFUL_CODECS = ("punycode",)
 
 
 def RT(x, e, r):
@@ -1664,9 +1668,15 @@ class Dump(C10VC):
                     for buffered in (False, True):
                         yield {"entry": "dump", "pattern": pat, "target": self.kind, "encoding": enc, "errors": "strict",
                                "buffered": buffered, "size": 2, "nonascii": False}
+            # ... and last of all the stdlib codec(s) whose IncrementalEncoder is not incremental
+            for enc in UNLAWFUL_CODECS:
+                yield {"entry": "dump", "pattern": "11", "target": self.kind, "encoding": enc, "errors": "strict",
+                       "buffered": False, "size": 2, "nonascii": False}
 
     def finding_key(self, res):
         w = res.witness or {}
+        if w.get("encoding") in UNLAWFUL_CODECS:
+            return str(w.get("encoding"))
         if w.get("encoding") in STATEFUL_CODECS:
             return "stateful-encoding"
         return str(w.get("encoding"))
@@ -1676,7 +1686,8 @@ class Dump(C10VC):
         for r in rs:
             # an implementation that does not use an incremental encoder is outside the codec law this contract
             # assumes: without a natively failing input the honest verdict is "undecided", not "violated"
-            if r.status == "refuted" and r.witness is None and ".text#" in r.name and "structural predicate" in (r.detail or ""):
+            if (r.status == "refuted" and r.witness is None and (".text#" in r.name or ".text_lawful_codec#" in r.name)
+                    and "structural predicate" in (r.detail or "")):
                 r.status = "unknown"
                 r.detail = ("no incremental encoder on this path: the assumed codec law does not relate the written bytes to the "
                             "text, and no failing input was found on the real code")
@@ -1784,8 +1795,10 @@ class Dump(C10VC):
 
         def inc_encode(I_, st, args, kwargs, node):
             """IncrementalEncoder.encode(x, final=False).  CODEC LAW (assumed, every codec, stateful or not; cross-checked
-            natively by C10.spec.incremental_encoder): the concatenation of all outputs up to and including the final
-            call decodes to what the encoding of the concatenation of all inputs decodes to."""
+            natively by C10.spec.incremental_encoder and, over every text codec of the stdlib, by
+            C10.bounded.dump_codec_sweep): FOR A CODEC WHOSE IncrementalEncoder IS A CORRECT INCREMENTAL ENCODER
+            (LAWFUL), the concatenation of all outputs up to and including the final call decodes to what the
+            encoding of the concatenation of all inputs decodes to.  Known false for: punycode."""
             enc, x = args[0], args[1]
             final = args[2] if len(args) > 2 else kwargs.get("final", False)
             if not isinstance(final, bool):
@@ -1803,7 +1816,7 @@ class Dump(C10VC):
             if final:
                 h.fields["final"] = True
                 e_t, r_t = to_term(h.fields["e"], "obj"), to_term(h.fields["r"], "obj")
-                st.assume(BTEXT(L.arr, z3.IntVal(0), L.n, e_t) == RT(to_term(fed, "str"), e_t, r_t))
+                st.assume(z3.Implies(LAWFUL(e_t), BTEXT(L.arr, z3.IntVal(0), L.n, e_t) == RT(to_term(fed, "str"), e_t, r_t)))
             return [(s1, Raised(ex)), (st, w)]
 
         I.specs["_IncEnc.encode"] = inc_encode
@@ -1930,6 +1943,7 @@ class Dump(C10VC):
             self.e_term = str2obj(self.encoding.t)
         elif self.kind == "path":
             self.e_term = str2obj(z3.StringVal("utf-8"))
+            st.assume(LAWFUL(self.e_term))  # codec table: utf-8's incremental encoder obeys the law (C10.spec.incremental_encoder[utf-8,strict])
         else:
             self.e_term = None
         if self.e_term is not None:
@@ -2003,9 +2017,10 @@ class Dump(C10VC):
                    z3.ForAll([j], z3.Implies(z3.And(0 <= j, j < self.S.n), z3.Select(h.arr, n0 + j) == str2obj(z3.Select(self.S.arr, j))))]
         return z3.And(*fs)
 
-    def p_text(self, pre, out):
+    def p_text(self, pre, out, lawful_only=False):
         """THE STATEMENT: the bytes dump wrote, decoded with the encoding, are the concatenation of the pieces
-        (for a lossy error mode: what encoding the whole text keeps of it) - for EVERY codec"""
+        (for a lossy error mode: what encoding the whole text keeps of it) - for EVERY codec.  dump trusts the
+        codec's IncrementalEncoder, so this is refuted for a codec whose incremental encoder is not one (punycode)"""
         if out.raised or self.e_term is None:
             return None
         tg = self._target(out)
@@ -2019,7 +2034,13 @@ class Dump(C10VC):
         T = BTEXT(h.arr, n0, h.n, e)
         whole = JOIN(self.S.arr, self.S.n)
         goal = z3.And(T == RT(whole, e, r), z3.Implies(self.errors.t == z3.StringVal("strict"), T == whole))
-        return z3.Implies(btext_ext(h.arr, n0, h.n, L.arr, z3.IntVal(0), L.n, e), goal)
+        g = z3.Implies(btext_ext(h.arr, n0, h.n, L.arr, z3.IntVal(0), L.n, e), goal)
+        return z3.Implies(LAWFUL(e), g) if lawful_only else g
+
+    def p_text_lawful(self, pre, out):
+        """... proved for every codec whose IncrementalEncoder obeys the codec law (every text codec of the stdlib
+        except punycode, see C10.bounded.dump_codec_sweep)"""
+        return self.p_text(pre, out, lawful_only=True)
 
     def p_fresh_encoder(self, pre, out):
         """the encoder of a dump() call is created by that call (`codecs.getincrementalencoder(enc)(errors)` evaluated
@@ -2035,7 +2056,7 @@ class Dump(C10VC):
         return out.value.tag in ("open", "write", "writelines", "encode", "codec")
 
     posts = [("open", p_open), ("close", p_close), ("content", p_content), ("text", p_text),
-             ("fresh_encoder", p_fresh_encoder), ("exceptions", p_exceptions)]
+             ("text_lawful_codec", p_text_lawful), ("fresh_encoder", p_fresh_encoder), ("exceptions", p_exceptions)]
 
 
 DUMPS = [Dump(k, e) for k in ("path", "wl", "nowl") for e in (False, True)]
@@ -2327,6 +2348,113 @@ def incremental_encoder_table(task, tier, seed):
     return rs
 
 
+SWEEP_PIECES = [["ab", "cd"], ["a", "", "b"], [], [""], ["x", "é"], ["bü", "cher"], ["日本", "語x"], ["<0>", "<1>", "", "<3>"]]
+
+
+def stdlib_text_codecs():
+    import codecs
+    import encodings
+    import pkgutil
+    out = []
+    for m in sorted(x.name for x in pkgutil.iter_modules(encodings.__path__)):
+        if m == "aliases":
+            continue
+        try:
+            info = codecs.lookup(m)
+        except Exception:  # noqa: platform specific (mbcs, oem)
+            continue
+        if getattr(info, "_is_text_encoding", True):
+            out.append(m)
+    return out
+
+
+def sweep_case(enc, pieces, target="path"):
+    """-> (None | description, law_holds: bool | None).  Only texts the codec itself round-trips are used."""
+    import codecs
+    text = "".join(pieces)
+    try:
+        want = text.encode(enc)
+        if want.decode(enc) != text:
+            return None, None
+    except Exception:  # noqa: the codec cannot encode this text at all
+        return None, None
+    try:
+        e = codecs.getincrementalencoder(enc)()
+        inc = b"".join(e.encode(p) for p in pieces) + e.encode("", final=True)
+        law = inc.decode(enc) == text
+    except Exception:  # noqa
+        law = False
+    datas = []
+    for _ in range(2):  # two dumps in a row
+        s = E.TemplateStream(iter(list(pieces)))
+        if target == "path":
+            d = tempfile.mkdtemp(prefix="c10sweep")
+            try:
+                path = os.path.join(d, "o")
+                s.dump(path, enc)
+                datas.append(open(path, "rb").read())
+            finally:
+                import shutil
+                shutil.rmtree(d, ignore_errors=True)
+        else:
+            f = _FileWL()
+            s.dump(f, enc)
+            datas.append(b"".join(f.items[1:]))
+    for i, data in enumerate(datas):
+        try:
+            got = data.decode(enc)
+        except Exception as ex:  # noqa
+            got = f"<{type(ex).__name__}: {ex}>"
+        if got != text:
+            return (f"dump #{i + 1} in a row: dump({target}, {enc!r}) of pieces {pieces!r} wrote {data!r} which decodes to {got!r}; "
+                    f"the rendered text is {text!r} (its encoding is {want!r})"), law
+    if datas[0] != datas[1]:
+        return f"two dumps in a row of pieces {pieces!r} with {enc!r} differ: {datas[0]!r} then {datas[1]!r}", law
+    return None, law
+
+
+def bounded_codec_sweep(task, tier, seed):
+    """the dump statement and the incremental-encoder law over EVERY text codec of the standard library"""
+    t0 = time.time()
+    rs = []
+    cases = 0
+    unlawful = []
+    names = stdlib_text_codecs()
+    for enc in names:
+        bad = None
+        law_ok = True
+        used = 0
+        for pieces in SWEEP_PIECES:
+            for target in ("path", "wl"):
+                try:
+                    d, law = sweep_case(enc, pieces, target)
+                except Exception as ex:  # noqa
+                    d, law = f"crash {ex!r}", None
+                if law is None and d is None:
+                    continue
+                used += 1
+                cases += 1
+                if law is False:
+                    law_ok = False
+                if d and bad is None:
+                    bad = ({"entry": "dump_codec", "encoding": enc, "errors": "strict", "pieces": pieces, "size": None, "target": target, "sweep": True}, d)
+        if not used:
+            continue
+        if not law_ok:
+            unlawful.append(enc)
+        nm = f"C10.bounded.dump_codec_sweep[{enc}]"
+        note = "incremental-encoder law holds" if law_ok else "the codec's IncrementalEncoder VIOLATES the incremental-encoder law"
+        if bad:
+            rs.append(Res(nm, "refuted", "native", time.time() - t0, bad[1] + " [" + note + "]", "bounded", bad[0]))
+        else:
+            rs.append(Res(nm, "bounded-ok", "native", time.time() - t0, f"{used} cases; {note}", "bounded"))
+    task.bound_text = (f"every text codec of the stdlib `encodings` package usable on this platform ({len(rs)} codecs), "
+                       f"{len(SWEEP_PIECES)} piece lists, path and file-object targets, two dumps in a row; "
+                       f"codecs violating the incremental-encoder law: {unlawful or 'none'}")
+    task.stats = {"cases": cases, "codecs": len(rs), "law_violated": unlawful}
+    return rs
+
+
 def dump_codec_key(res):
     """known findings are keyed by the codec"""
     return str((res.witness or {}).get("encoding"))
@@ -2339,6 +2467,9 @@ def replay_bounded(w):
         got = b"".join(e.encode(p) for p in w["pieces"]) + e.encode("", final=True)
         want = "".join(w["pieces"]).encode(w["encoding"], w["errors"])
         return got.decode(w["encoding"]) != want.decode(w["encoding"]), f"incremental {got!r} vs whole {want!r}"
+    if w.get("entry") == "dump_codec" and w.get("sweep"):
+        d, law = sweep_case(w["encoding"], w["pieces"], w["target"])
+        return d is not None, d or "the dumped file decodes to the rendered text"
     if w.get("entry") == "dump_codec":
         try:
             d = dump_codec_case(w["encoding"], w["errors"], w["pieces"], w["size"], w["target"])
@@ -2375,9 +2506,11 @@ TASKS = (
        FnTask("C10", "C10.bounded.buffered", bounded_buffered, "bounded", replay_bounded),
        FnTask("C10", "C10.bounded.entrypoints", bounded_e2e, "bounded", replay_bounded),
        FnTask("C10", "C10.bounded.dump_codecs", bounded_dump_codecs, "bounded", replay_bounded),
-       FnTask("C10", "C10.spec.incremental_encoder", incremental_encoder_table, "bounded", replay_bounded)]
+       FnTask("C10", "C10.spec.incremental_encoder", incremental_encoder_table, "bounded", replay_bounded),
+       FnTask("C10", "C10.bounded.dump_codec_sweep", bounded_codec_sweep, "bounded", replay_bounded)]
 )
-TASKS[-2].finding_key = dump_codec_key
+TASKS[-3].finding_key = dump_codec_key
+TASKS[-1].finding_key = dump_codec_key
 
 META = {
     "level": "proof",
@@ -2393,8 +2526,10 @@ META = {
         "with 1..size, the uncovered tail consists of empty strings, and the concatenation of the chunks is the concatenation of the "
         "input. dump: for text-mode targets the items are written in order after the prior content; for binary targets the "
         "postcondition is about the DECODED bytes dump wrote: they decode to the concatenation of the pieces (for a lossy error mode, "
-        "to what encoding the whole text keeps of it), discharged for EVERY codec, stateful or not: the nested generator encoded() "
-        "runs from the real source (ghost output sequence, loop invariant) under the incremental-encoder codec law. (Before /repo "
+        "to what encoding the whole text keeps of it), discharged (clause text_lawful_codec) for every codec whose IncrementalEncoder "
+        "obeys the incremental-encoder law, stateful or not: the nested generator encoded() runs from the real source (ghost output "
+        "sequence, loop invariant). The unconditional clause `text` is REFUTED on the unchanged tree by the stdlib punycode codec, whose "
+        "incremental encoder is not incremental (known finding; a sweep over all 110 stdlib text codecs finds no other). (Before /repo "
         "fff2da6 each piece was encoded separately and this clause was refuted for utf-16/utf-32/utf-8-sig: see known_findings.d/c10.json, fixed.) "
         "dump closes exactly the file it opened on every path. Paper lemma: when R is a function of the context (C29/C30) all five texts equal "
         "JOIN(R(ctx0)). Partial correctness only (termination of the buffering loop is not an obligation; the bounded stand-in runs the "
@@ -2404,7 +2539,7 @@ META = {
         "call shapes of render/generate/stream: 0..1 positional and 0..2 keyword arguments with symbolic values (the code passes *args/**kwargs through verbatim)",
         "the Context returned by new_context belongs to the environment passed to it (contract of runtime.new_context / Context.__init__)",
         "file model of dump: write appends, writelines appends in order (writelines(it) == for x in it: write(x)), both may raise OSError; open gives a new empty file with writelines or raises OSError; str.encode is an uninterpreted function that may raise UnicodeError (raised eagerly in the model)",
-        "codec law (every codec): for enc = codecs.getincrementalencoder(e)(r), the concatenation of enc.encode(x_0) ... enc.encode(x_n-1), enc.encode('', final=True) decodes to the same text as ''.join(x).encode(e, r) (byte-identical too, except CPython's utf-7); a strict encode that succeeds is lossless; getincrementalencoder may raise LookupError, encode may raise UnicodeEncodeError",
+        "codec law, assumed ONLY for a codec whose IncrementalEncoder is a correct incremental encoder (predicate LAWFUL; asserted for the utf-8 default): for enc = codecs.getincrementalencoder(e)(r), the concatenation of enc.encode(x_0) ... enc.encode(x_n-1), enc.encode('', final=True) decodes to the same text as ''.join(x).encode(e, r) (byte-identical too, except utf-7). Checked natively for 14 codec/error-mode pairs (C10.spec.incremental_encoder) and for every text codec of the stdlib usable on this platform, 110 codecs (C10.bounded.dump_codec_sweep). KNOWN FALSE for: punycode (its IncrementalEncoder encodes every call as a complete string) - there the unconditional clause dump[...].text is refuted (known finding, hunt f/C10_1); third-party codecs are not checked. A strict encode that succeeds is lossless; getincrementalencoder may raise LookupError, encode may raise UnicodeEncodeError",
         "helpers of the package that dump calls are executed from their real source; a helper memoised with functools.lru_cache/cache may return the object of an earlier call, so a mutable object it returns (an encoder) is in an arbitrary state: clause fresh_encoder requires the encoder to be created by the dump call itself; the native oracle runs every dump twice in a row and compares bytes with text.encode(enc, errors) (all codecs except utf-7)",
         "for file-object targets the decoded-text clause is about the bytes dump wrote (what the object held before is only required to be untouched)",
         "generate()/render() in async mode belong to C09.entry (render's delegation to asyncio.run(render_async(...)) is checked here; generate is checked in sync mode)",
@@ -2416,6 +2551,6 @@ META = {
         "dependency spec: functools.partial(f, a)() == f(a)", "dependency spec: next()/StopIteration on iterators, list(iterator), list.append/clear",
         "dependency spec: dict(*args, **kwargs) as an opaque function of its arguments",
         "dependency spec: markupsafe.Markup(s) is a Markup string with the text of s",
-        "dependency spec: codecs.getincrementalencoder / IncrementalEncoder.encode with the codec law above (cross-checked natively on 14 codec/error-mode pairs: C10.spec.incremental_encoder)",
+        "dependency spec: codecs.getincrementalencoder / IncrementalEncoder.encode with the codec law above, for lawful codecs only (cross-checked natively: C10.spec.incremental_encoder, C10.bounded.dump_codec_sweep; known false for punycode)",
     ],
 }
